@@ -28,7 +28,13 @@ TDIM = {"interval": 1, "triangle": 2, "tetrahedron": 3}
 
 # vertices of facet f (opposite vertex f), in increasing order
 def facet_vertices(tdim, f):
+    if tdim == 1:
+        return [f]  # the facets of an interval are its vertices, numbered as vertices
     return [v for v in range(tdim + 1) if v != f]
+
+
+def opposite_vertex(tdim, f):
+    return 1 - f if tdim == 1 else f
 
 
 # edges: UFC numbering
